@@ -255,7 +255,7 @@ func checkC08(P *Program, r *Result, tier string) {
 	}
 	nd := 0
 	for _, fn := range scope {
-		if len(selfCalls(fn)) == 0 {
+		if !onCallCycle(fn) {
 			continue
 		}
 		// comparisons of the type parameter with constants
@@ -266,6 +266,20 @@ func checkC08(P *Program, r *Result, tier string) {
 			}
 		}
 		if tpar == nil {
+			continue
+		}
+		// the dispatcher is the function on the cycle that compares its tag with constants
+		hasCmp := false
+		for _, b := range fn.Blocks {
+			for _, in := range b.Instrs {
+				if bo, ok := in.(*ssa.BinOp); ok && bo.Op == token.EQL && bo.X == ssa.Value(tpar) {
+					if _, isC := bo.Y.(*ssa.Const); isC {
+						hasCmp = true
+					}
+				}
+			}
+		}
+		if !hasCmp {
 			continue
 		}
 		nd++
@@ -721,6 +735,46 @@ func depthRules(P *Program, r *Result, A *Analysis, scope []*ssa.Function) int {
 				}
 			}
 		}
+		// helpers reached only with depth ≥ 1 (every call site on the cycle proves it) may rely on that
+		geq1 := map[*ssa.Function]bool{}
+		for changed := true; changed; {
+			changed = false
+			for f := range scc {
+				if geq1[f] || f == fn {
+					continue
+				}
+				fk, has := dpar[f]
+				if !has {
+					continue
+				}
+				all, any := true, false
+				for g := range scc {
+					gk, hasG := dpar[g]
+					if !hasG {
+						continue
+					}
+					faG := A.fa(g)
+					parG := faG.expand(g.Params[gk])
+					as := []*Lin{ineqGE(parG, linConst(0))}
+					if geq1[g] {
+						as = append(as, ineqGE(parG, linConst(1)))
+					}
+					for _, c := range callsIn(g) {
+						if c.Common().StaticCallee() != f {
+							continue
+						}
+						any = true
+						if !faG.prove(ineqGE(faG.expand(c.Common().Args[fk]), linConst(1)), c.(*ssa.Call).Block(), rootCtx.with(as, nil)) {
+							all = false
+						}
+					}
+				}
+				if all && any {
+					geq1[f] = true
+					changed = true
+				}
+			}
+		}
 		zeroEdges := map[*ssa.Function][]*ssa.Function{}
 		for f := range scc {
 			fk, has := dpar[f]
@@ -744,7 +798,11 @@ func depthRules(P *Program, r *Result, A *Analysis, scope []*ssa.Function) int {
 					zeroEdges[f] = append(zeroEdges[f], g)
 				}
 				if okEdge && d.C.Sign() < 0 {
-					pos := faF.prove(ineqGE(par, linConst(1)), cc.Block(), rootCtx.with([]*Lin{ineqGE(par, linConst(0))}, nil))
+					as := []*Lin{ineqGE(par, linConst(0))}
+					if geq1[f] {
+						as = append(as, ineqGE(par, linConst(1)))
+					}
+					pos := faF.prove(ineqGE(par, linConst(1)), cc.Block(), rootCtx.with(as, nil))
 					r.add("DEPTH", shortName(f), "call", "the depth is decremented only when it is ≥ 1 (rank decreases, stays ≥ 0)", P.pos(instrPos(cc)), pos, "")
 				}
 			}
@@ -835,4 +893,29 @@ func errExamined(v ssa.Value, seen map[ssa.Value]bool) bool {
 		}
 	}
 	return false
+}
+
+// onCallCycle: fn can reach itself through static calls inside the repository.
+func onCallCycle(fn *ssa.Function) bool {
+	seen := map[*ssa.Function]bool{}
+	var walk func(f *ssa.Function) bool
+	walk = func(f *ssa.Function) bool {
+		for _, c := range callsIn(f) {
+			cal := c.Common().StaticCallee()
+			if cal == nil || !inRepo(cal) || cal.Blocks == nil {
+				continue
+			}
+			if cal == fn {
+				return true
+			}
+			if !seen[cal] {
+				seen[cal] = true
+				if walk(cal) {
+					return true
+				}
+			}
+		}
+		return false
+	}
+	return walk(fn)
 }
